@@ -20,6 +20,8 @@ pub enum Level {
     SkipUnchecked,
     /// read_message_begin, one struct by the interpreter, read_message_end
     Envelope,
+    /// protobuf leg: "pbgen:<Msg>", "pbgenld:<Msg>", "pbwrap:<ty>", "pbcodec:<codec>:<wire type>:<s|r>"
+    Pb(String),
 }
 
 impl Level {
@@ -31,6 +33,7 @@ impl Level {
             Level::SkipField => "skipfield".into(),
             Level::SkipUnchecked => "skipunchecked".into(),
             Level::Envelope => "envelope".into(),
+            Level::Pb(n) => n.clone(),
         }
     }
     pub fn from_name(s: &str) -> Option<Level> {
@@ -42,6 +45,9 @@ impl Level {
         }
         if let Some(r) = s.strip_prefix("skip:") {
             return r.parse().ok().map(Level::Skip);
+        }
+        if s.starts_with("pb") {
+            return Some(Level::Pb(s.to_string()));
         }
         match s {
             "skipfield" => Some(Level::SkipField),
@@ -59,6 +65,17 @@ impl Level {
             Level::SkipField => "skipfield",
             Level::SkipUnchecked => "skipunchecked",
             Level::Envelope => "envelope",
+            Level::Pb(n) => {
+                if n.starts_with("pbgenld") {
+                    "pbgenld"
+                } else if n.starts_with("pbgen") {
+                    "pbgen"
+                } else if n.starts_with("pbwrap") {
+                    "pbwrap"
+                } else {
+                    "pbcodec"
+                }
+            }
         }
     }
 }
